@@ -61,6 +61,11 @@ with both repairs; all 21 caught, typical signature in brackets):
       (needs a toggle of the source block between two deliveries)
   seeded/C16-s4 IfOutput returns the control block's output itself: needs a control block whose
       output is a non-empty dict (it would replace the event data)      [wrong-data/ifout*]
+  seeded/C16-s12 add_output leaves the data unchanged when the source's output is UNDEF: needs
+      an Input created (initialised) before the control blocks, so that its first output
+      event passes add_output while the source is UNDEF; the control blocks' outputs are
+      snapshotted by a probe filter at the head of every output-event pipeline, which makes
+      the init-time verdicts independent of the initialisation order    [wrong-data/*edit*]
   M20 NotIfInitialized tests 'init_steps_completed >= 2' (a different
       notion of initialised)                                            [nii-race/dropped-for-uninitialised]
       (needs: coroutine failure/time-out, InitAsync initdef, target without initdef created first)
@@ -107,7 +112,7 @@ RULE = ("one run = one circuit: sender block with 1-4 Events x pipelines of 0-3 
         "deciding filter, race pattern)")
 REACH_EXPECTED = ['veto_mid_pipeline', 'edit_seen_by_later_filter', 'delta_last_passed_matters',
                   'edge_from_undef', 'edge_same_level', 'ifoutput_pass', 'ifoutput_veto',
-                  'ifoutput_pass_mapping_output',
+                  'ifoutput_pass_mapping_output', 'ctrl_undef_at_filter_time',
                   'ifoutput_stale_inverter', 'edit_keyerror', 'modify_reject', 'modify_delete',
                   'nonstring_key', 'readonly_mapping', 'userdict', 'empty_dict_replaces',
                   'class_form', 'instance_form', 'filter_raises', 'add_output',
@@ -181,8 +186,13 @@ def gen_edit_ops(rng, safe=False):
             if safe and ops[-1][1] in ('a', 'b'):
                 ops.insert(len(ops) - 1, ['add', {ops[-1][1]: rng.choice(POOL)}])
         else:
-            ops.append(['add_output', rng.choice(KEYS + ['out']), rng.choice(['c0', 'c1']),
+            key = rng.choice(KEYS + ['out'])
+            if rng.random() < 0.3:
+                ops.append(['add', {key: 'stale'}])         # must be overwritten
+            ops.append(['add_output', key, rng.choice(['c0', 'c1']),
                         rng.choice(['name', 'obj'])])
+            if rng.random() < 0.3:
+                ops.append(['setdefault', {key: 'dflt'}])   # must not replace the output
     return ops[:4]
 
 
@@ -332,6 +342,9 @@ def gen(rng, tier, index=0):
                'initdef': rng.choice(NUMS if numeric else POOL), 'pipes': vpipes}
         vins.append(vin)
     nii = gen_nii(rng) if rng.random() < 0.35 else None
+    # the Inputs may be created (hence initialised) before the control blocks: their first
+    # output event then passes IfOutput / add_output while the control block is still UNDEF
+    vins_first = bool(vins) and rng.random() < 0.4
     ops = []
     walk = [rng.choice(NUMS)]
     focus = rng.randrange(len(pipes))
@@ -349,7 +362,8 @@ def gen(rng, tier, index=0):
             ops.append({'op': 'ctrl', 'name': rng.choice(['c0', 'c1']), 'value': rng.choice(CTRL_POOL)})
         else:
             ops.append({'op': 'yield'})
-    return {'knobs': knobs, 'ctrl': ctrl, 'pipes': pipes, 'vins': vins, 'nii': nii, 'ops': ops}
+    return {'knobs': knobs, 'ctrl': ctrl, 'pipes': pipes, 'vins': vins, 'nii': nii, 'ops': ops,
+            'vins_first': vins_first}
 
 
 # --------------------------------------------------------------------------- real filters
@@ -581,6 +595,8 @@ class Env:
         self.circuit = circuit
         self.ctrl = dict(ctrl)      # model of the control Inputs' outputs
         self.run = None
+        self.snap = None            # outputs of the control blocks observed by the probe
+                                    # filter at the head of the pipeline (this delivery)
 
     def output(self, name, spec=None):
         if spec is not None and spec.get('ref') == 'not':
@@ -590,9 +606,16 @@ class Env:
             if bool(out) == bool(self.ctrl[name]):
                 self.run.fired('reach:ifoutput_stale_inverter')
             return out
+        if self.snap is not None and name in self.snap:
+            # whatever the block's output was at that moment - UNDEF included
+            if self.snap[name] is edzed.UNDEF:
+                self.run.fired('reach:ctrl_undef_at_filter_time')
+            return self.snap[name]
         return self.ctrl[name]
 
     def initialized(self, name):
+        if self.snap is not None and name in self.snap:
+            return self.snap[name] is not edzed.UNDEF
         return True     # generic pipelines are exercised after the initialisation
 
     def set(self, name, value):
@@ -626,11 +649,58 @@ def execute(plan, trace=False):
 
         try:
             blocks = {}
-            for name in ('c0', 'c1'):
-                blocks[name] = edzed.Input(name, initdef=fm.decode(plan['ctrl'][name], undef))
+            snaps = collections.defaultdict(list)     # etype -> [{ctrl name: output}]
             rec = fsmlib.Recorder('rec', x_sink=sink)
             env = Env(circuit, {n: fm.decode(v, undef) for n, v in plan['ctrl'].items()})
             env.run = run
+
+            def mk_ctrl():
+                for name in ('c0', 'c1'):
+                    blocks[name] = edzed.Input(name,
+                                               initdef=fm.decode(plan['ctrl'][name], undef))
+
+            def mk_probe(etype):
+                def head_probe(data):
+                    snaps[etype].append({name: circuit.findblock(name).output
+                                         for name in ('c0', 'c1')})
+                    return True
+                return head_probe
+
+            def by_name(pipe):
+                """The same pipeline with all block references given by name."""
+                out = {'form': pipe.get('form', 'list'), 'filters': []}
+                for f in pipe['filters']:
+                    f = dict(f)
+                    if f.get('ref') == 'obj':
+                        f['ref'] = 'name'
+                    if f['f'] == 'edit':
+                        f['ops'] = [op[:3] + ['name'] if op[0] == 'add_output' else op
+                                    for op in f['ops']]
+                    out['filters'].append(f)
+                return out
+
+            def mk_vins():
+                for vin in plan['vins']:
+                    vevents, vmodels = [], []
+                    for j, pipe in enumerate(vin['pipes']):
+                        etype = f"{vin['name']}_{j}"
+                        rpipe = by_name(pipe) if plan.get('vins_first') else pipe
+                        flt = real_pipe(run, dict(rpipe, form='list'), blocks, notes)
+                        vevents.append(edzed.Event(rec, etype,
+                                                   efilter=[mk_probe(etype)] + list(flt)))
+                        vmodels.append(fm.PipelineModel(pipe['filters'], undef, env))
+                    blk = edzed.Input(vin['name'], initdef=fm.decode(vin['initdef'], undef),
+                                      **{vin['trigger']: vevents})
+                    vins.append({'blk': blk, 'models': vmodels, 'out': undef, 'spec': vin,
+                                 'nsent': [0] * len(vmodels)})
+
+            vins = []
+            if plan.get('vins_first'):
+                mk_vins()
+                mk_ctrl()
+            else:
+                mk_ctrl()
+                mk_vins()
             events = []
             models = []
             for i, pipe in enumerate(plan['pipes']):
@@ -638,16 +708,6 @@ def execute(plan, trace=False):
                                           efilter=real_pipe(run, pipe, blocks, notes)))
                 models.append(fm.PipelineModel(pipe['filters'], undef, env))
             src = Src('src', x_events=events)
-            vins = []
-            for vi, vin in enumerate(plan['vins']):
-                vevents, vmodels = [], []
-                for j, pipe in enumerate(vin['pipes']):
-                    vevents.append(edzed.Event(rec, f"{vin['name']}_{j}",
-                                               efilter=real_pipe(run, pipe, blocks, notes)))
-                    vmodels.append(fm.PipelineModel(pipe['filters'], undef, env))
-                blk = edzed.Input(vin['name'], initdef=fm.decode(vin['initdef'], undef),
-                                  **{vin['trigger']: vevents})
-                vins.append({'blk': blk, 'models': vmodels, 'out': undef, 'spec': vin})
         except PlanError:
             raise
         except (KeyError, TypeError, ValueError, IndexError) as err:
@@ -879,9 +939,18 @@ def execute(plan, trace=False):
                 if not changed:
                     run.fired('reach:every_output_same')
                 for j, model in enumerate(vin['models']):
-                    out = model.send({'trigger': 'output', 'previous': prev, 'value': value},
-                                     vin['spec']['name'])
-                    exp[f"{vin['spec']['name']}_{j}"] = out
+                    etype = f"{vin['spec']['name']}_{j}"
+                    k = vin['nsent'][j]
+                    vin['nsent'][j] += 1
+                    # the control blocks' outputs as the probe at the head of this very
+                    # delivery saw them (the model of the toggles otherwise)
+                    env.snap = snaps[etype][k] if k < len(snaps[etype]) else None
+                    try:
+                        out = model.send({'trigger': 'output', 'previous': prev, 'value': value},
+                                         vin['spec']['name'])
+                    finally:
+                        env.snap = None
+                    exp[etype] = out
                     consulted_total[0] += out.consulted
             return exp
 
@@ -939,13 +1008,10 @@ def execute(plan, trace=False):
                                f"{label}: {etype} pipeline {pipe_shape(pipe)}: received "
                                f"{canon(new[0])}, expected {canon(out.data)}")
                 if problem:
-                    if init and ctrl_dependent(pipe):
-                        # the order in which blocks get initialised is not documented: the
-                        # control block may have been UNDEF when this init-time event passed
-                        skipped.add(etype)
-                        run.fired('init_order_dependent_skipped')
-                    else:
-                        run.violate(*problem)
+                    # (also at initialisation time: the control blocks' outputs were observed
+                    # at the head of the pipeline, so the verdict does not depend on the
+                    # undocumented order in which blocks get initialised)
+                    run.violate(*problem)
 
         def marks_now():
             return {k: len(v) for k, v in recorded.items()}
@@ -1075,12 +1141,12 @@ def execute(plan, trace=False):
                             vin = vins[op['vin']]
                             value = fm.decode(op['value'], undef)
                             marks = marks_now()
-                            exp = expect_vin(vin, value)
                             res = None
                             try:
                                 res = edzed.ExtEvent(vin['blk'], 'put').send(value)
                             except Exception as err:    # pylint: disable=broad-except
                                 res = err
+                            exp = expect_vin(vin, value)
                             run.log('put', n, vin['spec']['name'], canon(value), canon(res))
                             judge_vin(f"op {n}: put {canon(value)} to {vin['spec']['name']}",
                                       vin, exp, marks)
